@@ -123,12 +123,15 @@ def _literal_strings(node):
 class ModuleInfo(object):
     """One parsed module."""
 
-    def __init__(self, name, path, rel):
+    def __init__(self, name, path, rel, text=None):
         self.name = name
         self.path = path
         self.rel = rel
-        with open(path, 'rb') as fh:
-            raw = fh.read()
+        if text is not None:
+            raw = text.encode('utf-8')
+        else:
+            with open(path, 'rb') as fh:
+                raw = fh.read()
         self.digest = hashlib.sha256(raw).hexdigest()[:16]
         self.source = raw.decode('utf-8')
         try:
@@ -218,8 +221,10 @@ class ModuleInfo(object):
 class Index(object):
     """Lazy index over ``lib/python/treadmill``."""
 
-    def __init__(self, root=None):
+    def __init__(self, root=None, overlay=None):
         self.root = root or repo_root()
+        # overlay: {relative path: replacement source text} (self-test)
+        self.overlay = overlay or {}
         self.pkg_dir = os.path.join(self.root, PKG_REL)
         self.modules = {}
         self._missing = set()
@@ -251,7 +256,7 @@ class Index(object):
                                     (name, self.pkg_dir))
             return None
         rel = os.path.relpath(path, self.root)
-        mod = ModuleInfo(name, path, rel)
+        mod = ModuleInfo(name, path, rel, self.overlay.get(rel))
         self.modules[name] = mod
         return mod
 
@@ -275,8 +280,9 @@ class Index(object):
                 name = '.'.join(parts)
                 if name not in self.modules:
                     try:
+                        rel = os.path.relpath(path, self.root)
                         self.modules[name] = ModuleInfo(
-                            name, path, os.path.relpath(path, self.root))
+                            name, path, rel, self.overlay.get(rel))
                     except AnalysisError:
                         # a module outside the anchored set that does not
                         # parse under this interpreter is skipped but counted
